@@ -50,7 +50,9 @@
 (* (the parser looks past '...' before it ends the document), "greedy"     *)
 (* (the reader keeps refilling while an undecoded tail remains), "shadow"  *)
 (* (dispose() is called but does not clear the parser's self-references),   *)
-(* "crjoin" (update_raw() reads on while the chunk ends with a CR).         *)
+(* "crjoin" (update_raw() reads on while the chunk ends with a CR), "early" *)
+(* (the loader is built at call time, its disposal sits in a generator     *)
+(* that a consumer who never asks for an item never starts).               *)
 (***************************************************************************)
 EXTENDS Naturals, Sequences, FiniteSets, TLC
 HL == INSTANCE Lazy
@@ -82,10 +84,11 @@ VARIABLES mode,
           gen, cur, dsize, gsize, ends, bad,      \* environment grammar: where we are in the stream, document bookkeeping
           pst, ev, pwant,       \* parser state, current event, an event is wanted
           api, delivered, raised, disposed,
+          built,                \* the loader object exists (Loader(stream) has run)
           selfref,              \* the loader is reachable from itself: parser.state / parser.states hold its bound methods
           hok                   \* H monitor
 vars == <<mode, closed, a, t, eofd, need, rst, crs, bol, queue, key, sdone, swant, gen, cur, dsize, gsize, ends,
-          bad, pst, ev, pwant, api, delivered, raised, disposed, selfref, hok>>
+          bad, pst, ev, pwant, api, delivered, raised, disposed, built, selfref, hok>>
 rdr == <<closed, a, t, eofd, need, rst, crs>>
 scn == <<bol, queue, key, sdone, swant>>
 env == <<gen, cur, dsize, gsize, bad>>
@@ -114,18 +117,18 @@ AtEnd == eofd /\ a = 0                     \* the scanner is at NUL
 \* reads on while a chunk ends with a CR ("keep CR LF in one chunk").
 CrChoice == IF TrackBoundary THEN BOOLEAN ELSE {FALSE}
 DetEnc ==                                   \* while not eof and len(raw_buffer) < 2: update_raw()
-  /\ Running /\ rst = "detenc"
+  /\ Running /\ built /\ rst = "detenc"
   /\ IF ~closed /\ t < 2
      THEN /\ \E k \in 0 .. Block : IF k = 0 THEN closed' = TRUE /\ UNCHANGED <<t, crs>>
                                     ELSE /\ t' = t + k /\ UNCHANGED closed
                                          /\ \E cr \in CrChoice : crs' = IF cr THEN crs \cup {a + t + k - 1} ELSE crs
           /\ UNCHANGED <<rst, need>>
      ELSE rst' = "run" /\ need' = 1 /\ UNCHANGED <<closed, t, crs>>          \* self.update(1)
-  /\ UNCHANGED <<mode, selfref, a, eofd, scn, env, ends, prs, top>>
+  /\ UNCHANGED <<mode, built, selfref, a, eofd, scn, env, ends, prs, top>>
 
 \* one iteration of "while len(buffer) < length": update_raw() unless eof, decode (final = eof), NUL at eof
 Refill ==
-  /\ Running /\ rst = "run" /\ need > 0
+  /\ Running /\ built /\ rst = "run" /\ need > 0
   /\ IF a >= need \/ eofd THEN need' = 0 /\ UNCHANGED <<closed, a, t, eofd, raised, crs>>
      ELSE \E k \in 0 .. Block, cr \in CrChoice :
           /\ closed => k = 0                                        \* "if not self.eof: self.update_raw()"
@@ -147,7 +150,7 @@ Refill ==
              \/ /\ got > 0                                          \* the batch contains an offending unit: ReaderError
                 /\ \E r \in a .. a + got - 1 : raised' = [kind |-> "reader", doc |-> 0, at |-> r]   \* r: offset from p
                 /\ t' = got /\ UNCHANGED <<a, eofd, need>>
-  /\ UNCHANGED <<mode, selfref, rst, scn, env, ends, prs, api, delivered, disposed, hok>>
+  /\ UNCHANGED <<mode, built, selfref, rst, scn, env, ends, prs, api, delivered, disposed, hok>>
 
 \* peek / prefix / forward ask for n units: "if pointer+n >= len(buffer): update(n)"
 Ask(n) == need' = n /\ UNCHANGED <<closed, a, t, eofd, rst, crs>>
@@ -173,11 +176,11 @@ Moved(k, n, nl) == IF k.on THEN [k EXCEPT !.dist = Min(@ + n, MaxKey + 1), !.sam
 ScanStale ==                                \* stale_possible_simple_keys
   /\ ScanActive /\ KeyStale
   /\ key' = NoKey
-  /\ UNCHANGED <<mode, selfref, rdr, bol, queue, sdone, swant, env, ends, prs, top>>
+  /\ UNCHANGED <<mode, built, selfref, rdr, bol, queue, sdone, swant, env, ends, prs, top>>
 ScanReady ==                                \* need_more_tokens() is false: back to whoever asked
   /\ ScanActive /\ ~KeyStale /\ ~NeedMore
   /\ swant' = FALSE
-  /\ UNCHANGED <<mode, selfref, rdr, bol, queue, key, sdone, env, ends, prs, top>>
+  /\ UNCHANGED <<mode, built, selfref, rdr, bol, queue, key, sdone, env, ends, prs, top>>
 
 \* the environment decides what the unit at p is; W / NL are consumed by scan_to_next_token (forward needs 2 units)
 \* forward(n) refills so that one unit after the n consumed is buffered: after a CR it must see whether an LF follows
@@ -191,7 +194,7 @@ Skip(u) ==
           /\ (0 \in crs) => u = "NL"                             \* a unit announced as CR is a line break
           /\ Advance(1) /\ key' = Moved(key, 1, u = "NL") /\ bol' = (u = "NL")
           /\ IF gen = "afterDE" THEN gsize' = gsize + 1 /\ UNCHANGED dsize ELSE dsize' = dsize + 1 /\ UNCHANGED gsize
-  /\ UNCHANGED <<mode, selfref, queue, sdone, swant, gen, cur, bad, prs, top>>
+  /\ UNCHANGED <<mode, built, selfref, queue, sdone, swant, gen, cur, bad, prs, top>>
 
 Push(tk) == queue' = Append(queue, tk)
 FetchEnd ==                                 \* NUL: STREAM-END; an open document ends here
@@ -201,7 +204,7 @@ FetchEnd ==                                 \* NUL: STREAM-END; an open document
           /\ Push(Tok("SE", gen = "body")) /\ sdone' = TRUE /\ key' = NoKey
           /\ ends' = IF gen = "body" THEN Append(ends, 0) ELSE ends
           /\ gen' = "end" /\ UNCHANGED rdr
-  /\ UNCHANGED <<mode, selfref, bol, swant, cur, dsize, gsize, bad, prs, top>>
+  /\ UNCHANGED <<mode, built, selfref, bol, swant, cur, dsize, gsize, bad, prs, top>>
 
 FetchMarker(m) ==                           \* '---' or '...' at the beginning of a line (TermLen units + 1 of look-ahead)
   /\ ScanActive /\ ~KeyStale /\ NeedMore /\ bol /\ m \in {"DS", "DE"}
@@ -215,7 +218,7 @@ FetchMarker(m) ==                           \* '---' or '...' at the beginning o
                      IN  IF gen = "body" THEN Append(moved, TermLen) ELSE moved
           /\ IF m = "DE" THEN gen' = "afterDE" /\ gsize' = 0 /\ UNCHANGED <<cur, dsize>>
              ELSE gen' = "body" /\ cur' = cur + 1 /\ dsize' = 0 /\ UNCHANGED gsize
-  /\ UNCHANGED <<mode, selfref, sdone, swant, bad, prs, top>>
+  /\ UNCHANGED <<mode, built, selfref, sdone, swant, bad, prs, top>>
 
 \* content tokens: K may start a simple key, T cannot, V is ':', B is lexically malformed,
 \* P / C / X are tokens the parser / composer / constructor will reject
@@ -241,7 +244,7 @@ FetchTok(u) ==
                                                       \o SubSeq(queue, key.idx, Len(queue)) \o <<Tok("VALUE", FALSE)>>
                                                  ELSE Append(queue, Tok("VALUE", FALSE))
                        [] OTHER   -> key' = NoKey /\ Push(Tok(u, FALSE))
-  /\ UNCHANGED <<mode, selfref, sdone, swant, gsize, prs, api, delivered, disposed, hok>>
+  /\ UNCHANGED <<mode, built, selfref, sdone, swant, gsize, prs, api, delivered, disposed, hok>>
 
 (***************************************************************************)
 (* Parser (one token of look-ahead)                                        *)
@@ -261,7 +264,7 @@ ParseDocStart0 ==                          \* parse_implicit_document_start
      ELSE /\ Keep /\ UNCHANGED raised
           /\ IF HeadTok.k \notin {"DS", "DE", "SE"} THEN pst' = "content" /\ ev' = [k |-> "DocStart", t |-> "-"]
              ELSE pst' = "dstart" /\ UNCHANGED ev
-  /\ UNCHANGED <<mode, selfref, rdr, env, ends, pwant, api, delivered, disposed, hok>>
+  /\ UNCHANGED <<mode, built, selfref, rdr, env, ends, pwant, api, delivered, disposed, hok>>
 
 ParseDocStart ==                           \* parse_document_start: skip '...', STREAM-END, or an explicit document
   /\ ParseActive /\ pst = "dstart"
@@ -272,7 +275,7 @@ ParseDocStart ==                           \* parse_document_start: skip '...', 
             [] OTHER -> Keep /\ raised' = [kind |-> "parser", doc |-> delivered + 1, at |-> 0] /\ UNCHANGED <<pst, ev>>
   \* "self.state = None" at STREAM-END (states and marks are empty there): the parser lets go of the loader by itself
   /\ selfref' = (selfref /\ ~(Peeked /\ HeadTok.k = "SE"))
-  /\ UNCHANGED <<mode, rdr, env, ends, pwant, api, delivered, disposed, hok>>
+  /\ UNCHANGED <<mode, built, rdr, env, ends, pwant, api, delivered, disposed, hok>>
 
 ParseContent ==                            \* the node events of the document, one per token here
   /\ ParseActive /\ pst = "content"
@@ -280,7 +283,7 @@ ParseContent ==                            \* the node events of the document, o
      ELSE IF HeadTok.k \in {"DS", "DE", "SE"} THEN Keep /\ pst' = "dend" /\ UNCHANGED <<ev, raised>>
      ELSE IF HeadTok.k = "P" THEN Keep /\ raised' = [kind |-> "parser", doc |-> delivered + 1, at |-> 0] /\ UNCHANGED <<pst, ev>>
      ELSE Take /\ ev' = [k |-> "Node", t |-> HeadTok.k] /\ UNCHANGED <<pst, raised>>
-  /\ UNCHANGED <<mode, selfref, rdr, env, ends, pwant, api, delivered, disposed, hok>>
+  /\ UNCHANGED <<mode, built, selfref, rdr, env, ends, pwant, api, delivered, disposed, hok>>
 
 ParseDocEnd ==                             \* parse_document_end: an explicit '...' belongs to the document
   /\ ParseActive /\ pst \in {"dend", "dend2"}
@@ -290,7 +293,7 @@ ParseDocEnd ==                             \* parse_document_end: an explicit '.
                         ELSE pst' = "dstart" /\ ev' = [k |-> "DocEnd", t |-> "-"])
      ELSE IF pst = "dend2" /\ HeadTok.k = "DE" THEN Take /\ UNCHANGED <<pst, ev>>
      ELSE Keep /\ pst' = "dstart" /\ ev' = [k |-> "DocEnd", t |-> "-"]
-  /\ UNCHANGED <<mode, selfref, rdr, env, ends, pwant, raised, api, delivered, disposed, hok>>
+  /\ UNCHANGED <<mode, built, selfref, rdr, env, ends, pwant, raised, api, delivered, disposed, hok>>
 
 (***************************************************************************)
 (* API generators and H bookkeeping                                        *)
@@ -329,11 +332,24 @@ ApiStep ==
                           THEN raised' = [kind |-> "constructor", doc |-> delivered + 1, at |-> 0] /\ UNCHANGED <<api, delivered, hok, ends>>
                           ELSE IF ev.k = "DocEnd" THEN Deliver /\ UNCHANGED raised
                           ELSE UNCHANGED <<api, delivered, raised, hok, ends>>
-  /\ UNCHANGED <<mode, selfref, rdr, env, disposed>>
+  /\ UNCHANGED <<mode, built, selfref, rdr, env, disposed>>
 
+\* scan / parse / compose_all / load_all are generator functions: the call only creates the generator (api = "new"); the
+\* loader is built - Parser.__init__ sets self.state = self.parse_stream_start, the first reads happen - when the first
+\* item is asked for.  A generator that is closed or dropped before that has nothing to dispose of.  Negative control
+\* "early": the loader is built by the call itself and the finally clause sits in a helper generator that a consumer who
+\* never asks for an item never starts.
+Start ==                                   \* the first next()
+  /\ Running /\ api = "new" /\ (built => ReaderIdle)
+  /\ api' = "check" /\ built' = TRUE /\ selfref' = TRUE
+  /\ UNCHANGED <<mode, rdr, scn, env, ends, prs, delivered, raised, disposed, hok>>
+AbandonNew ==                              \* close() / drop before the first next(): k = 0
+  /\ Running /\ api = "new" /\ (built => ReaderIdle)
+  /\ disposed' = TRUE                      \* the generator is gone; no finally clause has run
+  /\ UNCHANGED <<mode, built, selfref, rdr, scn, env, ends, prs, api, delivered, raised, hok>>
 ApiNext ==                                 \* the consumer asks for the next item ...
   /\ Running /\ api = "yielded" /\ api' = "check"
-  /\ UNCHANGED <<mode, selfref, rdr, scn, env, ends, prs, delivered, raised, disposed, hok>>
+  /\ UNCHANGED <<mode, built, selfref, rdr, scn, env, ends, prs, delivered, raised, disposed, hok>>
 \* loader.dispose() is Parser.dispose: "self.states = []; self.state = None" - it breaks the reference cycle
 \* loader -> state -> bound method -> loader, so that dropping the generator frees the loader, its stream and buffers by
 \* reference counting.  Negative control "shadow": dispose() is called but resolves to a method that leaves the
@@ -342,11 +358,11 @@ Dispose == /\ disposed' = TRUE /\ selfref' = (Variant = "shadow" /\ selfref)
 Abandon ==                                 \* ... or closes the generator (or it is exhausted): finally: loader.dispose()
   /\ Running /\ api \in {"yielded", "finished"}
   /\ Dispose
-  /\ UNCHANGED <<mode, rdr, scn, env, ends, prs, api, delivered, raised, hok>>
+  /\ UNCHANGED <<mode, built, rdr, scn, env, ends, prs, api, delivered, raised, hok>>
 Unwind ==                                  \* an error leaves the generator through the same finally clause
   /\ raised # NoErr /\ ~disposed
   /\ Dispose
-  /\ UNCHANGED <<mode, rdr, scn, env, ends, prs, api, delivered, raised, hok>>
+  /\ UNCHANGED <<mode, built, rdr, scn, env, ends, prs, api, delivered, raised, hok>>
 
 Init ==
   /\ mode \in Modes
@@ -354,8 +370,8 @@ Init ==
   /\ bol = TRUE /\ queue = <<>> /\ key = NoKey /\ sdone = FALSE /\ swant = FALSE
   /\ gen = "start" /\ cur = 0 /\ dsize = 0 /\ gsize = 0 /\ ends = <<>> /\ bad = FALSE
   /\ pst = "dstart0" /\ ev = NoEv /\ pwant = FALSE
-  /\ api = "check" /\ delivered = 0 /\ raised = NoErr /\ disposed = FALSE /\ hok = TRUE
-  /\ selfref = TRUE                       \* Parser.__init__: self.state = self.parse_stream_start
+  /\ api = "new" /\ delivered = 0 /\ raised = NoErr /\ disposed = FALSE /\ hok = TRUE
+  /\ built = (Variant = "early") /\ selfref = (Variant = "early")
 
 Next ==
   \/ DetEnc \/ Refill \/ ScanStale \/ ScanReady \/ FetchEnd
@@ -363,7 +379,7 @@ Next ==
   \/ \E m \in {"DS", "DE"} : FetchMarker(m)
   \/ \E u \in {"K", "T", "V", "B", "P", "C", "X"} : FetchTok(u)
   \/ ParseDocStart0 \/ ParseDocStart \/ ParseContent \/ ParseDocEnd
-  \/ ApiStep \/ ApiNext \/ Abandon \/ Unwind
+  \/ Start \/ AbandonNew \/ ApiStep \/ ApiNext \/ Abandon \/ Unwind
 Spec == Init /\ [][Next]_vars
 
 (***************************************************************************)
@@ -389,6 +405,9 @@ Referrers == (IF disposed THEN {} ELSE {"generator frame"}) \cup (IF selfref THE
              \cup (IF raised.kind = "constructor" THEN {"constructor.state_generators"} ELSE {})
 H_Release == (disposed /\ raised = NoErr) => HL!NothingLeft(Referrers)
 \* beyond the statement (drift probe of the harness): the same holds after every error but a constructor error
+\* nothing is requested from the stream before the first item is asked for (L fact; H only bounds it: k = 0)
+H_CallBound == (api = "new") => HL!Within(a + t, Block)
+L_NothingAtCall == (api = "new" /\ Variant # "early") => (a + t = 0 /\ ~closed)
 L_ReleaseOnError == (disposed /\ raised.kind \notin {"-", "constructor"}) => HL!NothingLeft(Referrers)
 TypeOK == /\ (a <= 2 * Block + MaxTail + TermLen + 1) \/ Variant \in {"greedy", "crjoin"}
           /\ (t <= 2 * Block + 1) \/ Variant = "crjoin"
